@@ -148,6 +148,16 @@ type docMatchTree struct {
 	docID     uint32
 }
 
+// fresh returns a docMatchTree with the same predicate and its own iteration
+// state.
+func (t *docMatchTree) fresh() *docMatchTree {
+	return &docMatchTree{
+		numDocs:   t.numDocs,
+		predicate: t.predicate,
+		reason:    t.reason,
+	}
+}
+
 type bruteForceMatchTree struct {
 	// mutable
 	firstDone bool
@@ -1092,7 +1102,10 @@ func (d *indexData) newMatchTree(q query.Q, opt matchTreeOpt) (matchTree, error)
 		checksum := queryMetaChecksum(s.Field, s.Value)
 		cacheKeyField := "Meta"
 		if cached, ok := d.docMatchTreeCache.Get(cacheKeyField, checksum); ok {
-			return cached, nil
+			// The cache saves us from recomputing the predicate. A
+			// docMatchTree also holds the iteration state of one search, so
+			// every search needs its own.
+			return cached.fresh(), nil
 		}
 
 		reposWant := make([]bool, len(d.repoMetaData))
@@ -1115,7 +1128,7 @@ func (d *indexData) newMatchTree(q query.Q, opt matchTreeOpt) (matchTree, error)
 				return reposWant[repoIdx]
 			},
 		}
-		d.docMatchTreeCache.Add(cacheKeyField, checksum, mt)
+		d.docMatchTreeCache.Add(cacheKeyField, checksum, mt.fresh())
 		return mt, nil
 
 	case *query.Substring:
